@@ -141,6 +141,9 @@ func (c08) Gen(seed uint64, tier string) Case {
 		}
 		a := Attacker{Spec: ProbeSpec{Name: names[i], Q: q, Inputs: ins, Outputs: uo, RegisterMs: -1, Concurrency: 1}}
 		n := 8 + r.Intn(22)
+		if tier == "thorough" {
+			n = 8 + r.Intn(52)
+		}
 		for k := 0; k < n; k++ {
 			call := AttackCall{Op: attackOps[r.Intn(len(attackOps))], Type: types[r.Intn(3)], ID: []string{"r0", "r1", "new"}[r.Pick([]int{3, 3, 1})], Val: fmt.Sprintf("a%d_%d", i, k)}
 			call.Owner = ownersPool[r.Intn(len(ownersPool))]
@@ -449,6 +452,7 @@ func (c08) Run(t *testing.T, cs Case, trace bool) *Outcome {
 				return
 			}
 			if !allowed {
+				out.fault("attack:call-outside-declarations:" + kind)
 				if kind == "read" {
 					deniedR++
 				} else {
@@ -474,6 +478,9 @@ func (c08) Run(t *testing.T, cs Case, trace bool) *Outcome {
 				return
 			}
 			// ownership: nobody else's resource changes unless its owner is named explicitly
+			if kind == "write" && rec.PreExists && ownerRel == "foreign" {
+				out.fault("attack:write-to-foreign-resource")
+			}
 			if kind == "write" && rec.PreExists && len(mine) > 0 {
 				named := rec.Att
 				switch call.Op {
